@@ -25,6 +25,7 @@ static std::string oracle(const Case& c) {
         return "encode differs from the specification's phrase for " + want.describe() + " coin=" + std::to_string(coin) + " lang=" + le->name_en + ":" + where + " library=[" + got + "] spec=[" + expect + "]";
     }
     if (ret != got.size()) return "encode returned " + std::to_string(ret) + ", strlen is " + std::to_string(got.size());
+    if (c.u("purity")) { k.fail_all = true; std::string g2 = lib::encode(s, le->lang, coin); k.fail_all = false; if (g2 != got) return "with an exhausted allocator encode produces a different phrase: [" + g2 + "] instead of [" + got + "]"; }
     lib::Image img = lib::store(s); unsigned foot = img[30] | (img[31] << 8);
     if (foot != (0x7000u | model::pack(want)[0])) return "bytes 30-31 of store are not LE16(0x7000 | check value): got " + std::to_string(foot) + " expected " + std::to_string(0x7000u | model::pack(want)[0]);
     // purity: the same abstract seed reached through load, under another feature mask and after encoding other things first
